@@ -1556,6 +1556,24 @@ func checkEmitRegrouped(c *Ctx, rule string) {
 		return true
 	})
 	if addObj == nil {
+		// the emission written as a recursive package function instead of a closure
+		for _, call := range callsIn(fi.Decl.Body, true) {
+			fn := calleeOf(info, call)
+			if fn == nil || fn.Pkg() == nil || fn.Pkg().Path() != pSqlx {
+				continue
+			}
+			hf := c.FuncInfoOf(fn)
+			if hf == nil || hf.Decl.Body == nil || hf.Decl == fi.Decl {
+				continue
+			}
+			for _, hc := range callsIn(hf.Decl.Body, true) {
+				if calleeOf(hf.Info(), hc) == fn {
+					addObj = fn
+				}
+			}
+		}
+	}
+	if addObj == nil {
 		c.Unresolved(rule, "SortChanges: the recursive emission closure")
 		return
 	}
